@@ -14,10 +14,10 @@ import (
 	"strings"
 	"sync"
 
+	"github.com/google/mtail/internal/exporter"
 	"github.com/google/mtail/internal/logline"
 	"github.com/google/mtail/internal/metrics"
 	"github.com/google/mtail/internal/metrics/datum"
-	"github.com/google/mtail/internal/exporter"
 	"github.com/google/mtail/internal/runtime"
 	"github.com/google/mtail/internal/simrt"
 	"github.com/prometheus/client_golang/prometheus"
